@@ -100,7 +100,7 @@ CHECKS["C14"] = dict(
          "so 'which source won' is decided for all values: every single source and every pair of sources among {attribute, *, type, .class, type.class, #id, comma list, "
          "inline} in both sheet orders on the shape and on its parent, same-selector repeats, two classes on one element, inheritance chains over three levels and through "
          "use, currentColor from each level or the caller, fill-/stroke-opacity folded into alpha, display:none by attribute/inline/rule, and the reify factor sqrt|det| "
-         "(accumulated or viewport-only for non-scaling strokes) for symbolic transforms of either orientation.",
+         "(accumulated or viewport-only for non-scaling strokes) for symbolic transforms of either orientation. Stroke widths with CSS units resolve by the CSS ratios and the parser's ppi through every source.",
     ref="DESIGN.md 4/C14",
     note=NOTE_COMMON + "Oracle: CSS specificity then sheet order. One known finding (two class rules on one element), see known_findings.json. Outside: rules selecting the "
          "root svg, unsupported selector syntaxes, !important, deeper nesting.")
